@@ -56,7 +56,18 @@ class P:
                     "stderr_tail": pr.stderr[-1500:]})
                 break
             stats.append({"workers": w, "duration": d, "ops": int(m.group(1)), "gets": int(m.group(2)), "dumps": int(m.group(3))})
-        return {"violations": viol, "coverage": {"lock_skeletons": ex, "race_detector_runs": stats,
+        notes = []
+        if not viol:
+            # peer lookups over the wire (the engine of C04: the real RPCServer / RPCClient on localhost): every answer is the one complete
+            # definition the peer holds for exactly that key, whatever was fetched over that connection before
+            try:
+                from props import c04
+                pf = c04.PROP.extra(tier, rng, known)
+                viol += pf.get("violations", [])
+                notes += pf.get("notes", [])
+            except Exception as e:
+                notes.append("peer-fetch engine not run: %s" % str(e)[:100])
+        return {"violations": viol, "notes": notes, "coverage": {"lock_skeletons": ex, "race_detector_runs": stats,
                                                   "evaluations": sum(s["ops"] + s["gets"] + s["dumps"] for s in stats) or 1,
                                                   "distinct_nontrivial": max(2, len(ex))}}
 
